@@ -105,7 +105,7 @@ theorem live_stepIface {n : Nat} {s s' : State} {t : Tid} {evs : List Ev}
      obtain ⟨a1, a2, a3, a4, a5, a6⟩ := h
      obtain ⟨b1, b2, b3, b4, b5, b6, b7⟩ := hw
      obtain ⟨c1, c2⟩ := hp
-     obtain ⟨q1, q2, q3, q4, q5, q6⟩ := hl
+     obtain ⟨q1, q2, q3, q4, q5, q7, q6⟩ := hl
      constructor <;> (try simp only [setPc]) <;>
        grind [holdsP, ownsQ, sOwnsQ, contInFlight, honoured, consF, WF, mem_addSet,
               addSet_ne_nil', mustWait, QW, InLoop])
@@ -125,7 +125,7 @@ theorem live_stepSolver {n : Nat} {s s' : State} {evs : List Ev}
      obtain ⟨a1, a2, a3, a4, a5, a6⟩ := h
      obtain ⟨b1, b2, b3, b4, b5, b6, b7⟩ := hw
      obtain ⟨c1, c2⟩ := hp
-     obtain ⟨q1, q2, q3, q4, q5, q6⟩ := hl
+     obtain ⟨q1, q2, q3, q4, q5, q7, q6⟩ := hl
      constructor <;> (repeat' split) <;>
        grind [holdsP, ownsQ, sOwnsQ, contInFlight, honoured, consF, WF, mem_unionSet,
               unionSet_eq_nil', QW, InLoop])
